@@ -60,18 +60,46 @@ struct Rng {
   explicit Rng(uint64_t seed = 1) : s(seed) {}
   Rng(uint64_t seed, uint64_t stream, uint64_t idx)
       : s(hash_combine(hash_combine(mix64(seed), stream), idx)) {}
-  uint64_t next() {
+  uint64_t prng() {
     uint64_t z = (s += 0x9e3779b97f4a7c15ULL);
     z = (z ^ (z >> 30)) * 0xbf58476d1ce4e5b9ULL;
     z = (z ^ (z >> 27)) * 0x94d049bb133111ebULL;
     return z ^ (z >> 31);
   }
+#ifdef VF_FUZZ_TARGET
+  // libFuzzer targets can put the fuzzer's bytes under the generator: every decision consumes as few bytes of the tape
+  // as its range needs (so that a mutation of the input changes one decision and coverage feedback steers the
+  // generators), and falls back to the PRNG, seeded from the tape, once the tape is used up.
+  const uint8_t* tape = nullptr;
+  size_t tape_n = 0, tape_i = 0;
+  void set_tape(const uint8_t* d, size_t n) {
+    tape = d;
+    tape_n = n;
+    tape_i = 0;
+    s = hash_bytes(d, n);
+  }
+  uint64_t take(unsigned nbytes) {
+    uint64_t v = 0;
+    for (unsigned k = 0; k < nbytes; k++) v = (v << 8) | tape[tape_i++];
+    return v;
+  }
+  uint64_t next() { return tape && tape_i + 8 <= tape_n ? take(8) : prng(); }
+  uint64_t below(uint64_t n) {
+    if (!n) return 0;
+    unsigned nb = n <= 0x100 ? 1 : n <= 0x10000 ? 2 : n <= 0x100000000ULL ? 4 : 8;
+    if (tape && tape_i + nb <= tape_n) return take(nb) % n;
+    return prng() % n;
+  }
+  bool coin() { return below(2) != 0; }
+#else
+  uint64_t next() { return prng(); }
   // uniform in [0,n)  (n>0); bias is irrelevant here
   uint64_t below(uint64_t n) { return n ? next() % n : 0; }
+  bool coin() { return next() & 1; }
+#endif
   // uniform in [lo,hi]
   uint64_t range(uint64_t lo, uint64_t hi) { return lo + below(hi - lo + 1); }
   bool chance(unsigned num, unsigned den) { return below(den) < num; }
-  bool coin() { return next() & 1; }
   template <class T>
   const T& pick(const std::vector<T>& v) { return v[below(v.size())]; }
   template <class T, size_t N>
